@@ -6,6 +6,9 @@ from .absval import *
 from . import pyfacts
 from .absint import (Unsupported, GATES1, GATES2, GATES3, STR_LIKE_METHODS, _Raise, _MaybeExit, Frame)
 
+# helpers defined in the glue modules are always inlined: field provenance (K2, W8) must survive refactoring into helpers
+GLUE_MODULES = {"circuit_lookup", "mub_circuits", "stabilizer_circuits", "tomography"}
+
 PURE_CIRCUIT_CONSUMERS = {
     "qiskit.quantum_info.StabilizerState", "qiskit.quantum_info.Clifford", "qiskit.quantum_info.Statevector",
     "qiskit.quantum_info.Operator", "qiskit.quantum_info.DensityMatrix", "builtins.print", "builtins.len",
@@ -23,6 +26,8 @@ def do_call(I, e: ast.Call, fr):
             o = I.obj(v)
             if o is not None and o.items is not None:
                 args.extend(o.items)
+            elif o is not None and "mapsplit" in o.meta:
+                args.append(Sym("star", o.meta["mapsplit"]))
             else:
                 args.append(Sym("star", v if not isinstance(v, Ref) else I.sym_of(v)))
         else:
@@ -67,7 +72,8 @@ def call_repo(I, f, args, kwargs, e, fr, closure=None, self_val=None):
     has_ref_obj = (f.cls is not None and not f.is_static and bool(args) and isinstance(args[0], Ref)
                    and I.heap[args[0].oid].kind == "record" and I.heap[args[0].oid].cls is not None
                    and I.prog.find_method(I.heap[args[0].oid].cls, f.name) is f)
-    if I.relevant(f) or has_ref_obj or getattr(f, "nested", False) and closure is not None and I.relevant(fr.func):
+    glue = f.module.name in GLUE_MODULES and not getattr(f, "nested", False)
+    if I.relevant(f) or has_ref_obj or glue or getattr(f, "nested", False) and closure is not None and I.relevant(fr.func):
         if getattr(f, "nested", False) and closure is not None:
             # closures: make the defining frame's variables visible
             saved = None
@@ -101,12 +107,31 @@ def instantiate(I, cls, args, kwargs, e, fr):
     has_ref = any(isinstance(a, Ref) for a in list(args) + list(kwargs.values()))
     init = I.prog.find_method(cls, "__init__")
     I.events.append(("new", cls.fq, tuple(args), dict(kwargs), where(fr, e), fr.func.fq, e))
-    if init is not None and (class_relevant(I, cls) or has_ref):
+    if init is not None and (class_relevant(I, cls) or has_ref or cls.module.name in GLUE_MODULES):
         o = I.alloc("record", site=where(fr, e), cls=cls)
         o.meta["ctor_args"] = tuple(I.sym_of(a) if isinstance(a, Ref) else a for a in args)
         self_ref = Ref(o.oid)
         I.call_function(init, [self_ref] + list(args), dict(kwargs), e)
         return self_ref
+    if init is None:
+        names = [st.target.id for st in cls.node.body if isinstance(st, ast.AnnAssign) and isinstance(st.target, ast.Name)]
+        tuple_like = any(b.split(".")[-1] in ("NamedTuple",) for b in cls.bases) or any("dataclass" in ast.unparse(d) for d in cls.node.decorator_list)
+        if names and tuple_like:
+            o = I.alloc("record", site=where(fr, e), cls=cls)
+            o.meta["ctor_args"] = tuple(I.sym_of(a) if isinstance(a, Ref) else a for a in args)
+            pos = list(args)
+            if len(pos) == 1 and isinstance(pos[0], Sym) and pos[0].tag == "star" and pos[0].args and isinstance(pos[0].args[0], Sym) and pos[0].args[0].tag == "mapsplit":
+                ms = pos[0].args[0]
+                fn, recv, sargs = ms.args[0].v, ms.args[1], ms.args[2:]
+                pos = [Sym(fn, Sym("field", recv, *sargs, Const(i), prov=recv.prov), prov=recv.prov) for i in range(len(names))]
+            for i, nm in enumerate(names):
+                if nm in kwargs:
+                    o.fields[nm] = kwargs[nm]
+                elif i < len(pos) and not (isinstance(pos[i], Sym) and pos[i].tag == "star"):
+                    o.fields[nm] = pos[i]
+                else:
+                    o.fields[nm] = Sym("attr", Sym("new", cls.name, *o.meta["ctor_args"]), nm)
+            return Ref(o.oid)
     return Sym("new", cls.name, *[I.sym_of(a) if isinstance(a, Ref) else a for a in args], typ=cls)
 
 
@@ -487,7 +512,21 @@ def dict_method(I, recv, o, name, args, kwargs, e, fr):
     if name in ("values",):
         return I.new_list(elem=o.elem, site=where(fr, e))
     if name == "get":
-        return join(o.elem, args[1] if len(args) > 1 else Const(None)) if o.elem is not None else Sym("item", I.sym_of(recv), args[0], maybe_none=True)
+        dflt = args[1] if len(args) > 1 else Const(None)
+        key = I.keyval(args[0]) if args else None
+        for (k, v, _w) in reversed(o.meta.get("stores", [])):
+            if key is not None and vkey(k) == vkey(key):
+                return v
+        if o.shared() and I.can_fork():
+            # a cache lookup: MISS first (its store becomes the model of the contents), then HIT
+            if I.decide(("cache-miss", o.origin[1])):
+                return dflt
+            if o.origin[1] in I.cache_model:
+                v = I.materialize(I.cache_model[o.origin[1]], o.origin[1])
+                o.meta.setdefault("stores", []).append((key, v, "earlier call (modelled from the miss path)"))
+                return v
+            raise Unsupported(f"lookup in shared dictionary {o.origin[1]} whose contents are not modelled at {where(fr, e)}")
+        return join(o.elem, dflt) if o.elem is not None else Sym("item", I.sym_of(recv), args[0], maybe_none=True)
     if name in ("update", "pop", "setdefault", "clear", "popitem"):
         I.mutate(o, name, e)
         if name == "update" and args:
